@@ -4,8 +4,31 @@ import (
 	"flag"
 	"fmt"
 	"os"
+	"runtime/metrics"
+	"strconv"
 	"time"
 )
+
+// memoryGuard ends the worker with a recognisable message when the process has mapped more than the limit (default
+// 6 GiB; workers of the unchanged tree stay below 0.3 GiB). The sandbox has no memory limit: without the guard a case
+// that allocates without bound would take the whole machine and the kernel's OOM killer would pick arbitrary victims
+// (including workers of other checks), which shows as a death without a Go runtime message.
+func memoryGuard() {
+	limit := uint64(6144)
+	if v, err := strconv.ParseUint(os.Getenv("VERIF_MEM_LIMIT_MB"), 10, 64); err == nil && v > 0 {
+		limit = v
+	}
+	limit <<= 20
+	sample := []metrics.Sample{{Name: "/memory/classes/total:bytes"}}
+	for {
+		time.Sleep(200 * time.Millisecond)
+		metrics.Read(sample)
+		if sample[0].Value.Kind() == metrics.KindUint64 && sample[0].Value.Uint64() > limit {
+			fmt.Fprintf(os.Stderr, "fatal error: verif memory guard: worker mapped %d MiB (limit %d MiB)\n", sample[0].Value.Uint64()>>20, limit>>20)
+			os.Exit(3)
+		}
+	}
+}
 
 // WorkerMain runs one shard of one property inside a child process.
 func WorkerMain(args []string) int {
@@ -36,6 +59,7 @@ func WorkerMain(args []string) int {
 			return 2
 		}
 	}
+	go memoryGuard()
 	stop := make(chan struct{})
 	if *result != "" {
 		go func() {
